@@ -571,4 +571,14 @@ theorem source_invertDiamond_is_model' (t : OctaT) (s tt : Int) (hwf : t.WF) (hs
 example : Generated.OctahedronToolBox.InvertDiamond (Generated.ofOctaT (Octa.ofCenter 127)) 100 (-90) = (37, -27) := by
   rw [source_invertDiamond_is_model' _ _ _ (by unfold OctaT.WF Octa.ofCenter; decide) (by decide) (by decide)]; decide
 
+open Generated in
+/-- `…CanonicalizedDecodingTransform::ComputeOriginalValue(Point2, Point2)` (the normal decoder's transform) is
+    `Octa.decOrig`, for every prediction on the grid and every correction -/
+theorem source_octaDecode_is_model' (t : OctaT) (pred corr : Int × Int) (hwf : t.WF) (hg : Octa.inGrid t pred) :
+    PredictionSchemeNormalOctahedronCanonicalizedDecodingTransform.ComputeOriginalValue (ofOctaT t) pred corr =
+      Octa.decOrig t pred corr := octaDecode_eq_model t pred corr hwf hg
+example : Generated.PredictionSchemeNormalOctahedronCanonicalizedDecodingTransform.ComputeOriginalValue
+    (Generated.ofOctaT (Octa.ofCenter 127)) (200, 13) (7, 250) = Octa.decOrig (Octa.ofCenter 127) (200, 13) (7, 250) :=
+  source_octaDecode_is_model' _ _ _ (by unfold OctaT.WF Octa.ofCenter; decide) (by unfold Octa.inGrid Octa.ofCenter; decide)
+
 end Draco
